@@ -51,7 +51,7 @@ def parseTab2 (s : String) : List (Float × Float × Eval Float) :=
     | _ => none
 
 def cfgOf (tol thr fp0 ms lo hi : String) : NRCfg Float :=
-  { nsTol := pF tol, slopeThr := pF thr, fp0 := pF fp0, maxSteps := pN ms, nsMin := pF lo, nsMax := pF hi }
+  { nsTol := pF tol, slopeThr := pF thr, fp0 := pF fp0, maxSteps := pI ms, nsMin := pF lo, nsMax := pF hi }
 
 def fI (i : Int) : String := toString i
 
